@@ -106,7 +106,7 @@ func TestC01SM(t *testing.T) {
 		Rule: "history of 10-45 generated actions (reconciles of the EDS and of each replica set in any order, kubelet/scheduler steps, pod failures incl. Failed/Unknown phases, duplicate pods, node add/remove/relabel/taint, template edits incl. eligibility-changing templates, canary strategy) over 1-6 nodes, every replica-set sync also run on store forks; monitors create-eligible, create-once, dup-resolution, ineligible-cleanup, unknown-untouched; non-trivial = at least two replica sets synced against the store and a sync read a node with several pods, a pod on an absent/unfit node, or a Failed/Unknown pod; distinct by action trace",
 		Cfg: WorldCfg{MinNodes: 1, MaxNodes: 6, Letters: "ABDEFGH", Strategy: gen.StrategyOpts{Canary: 1}, Forks: 2, Affinity: 2, Warmup: 5, StartEdit: 1,
 			Monitors: mon.Of("create-eligible", "create-once", "dup-resolution", "ineligible-cleanup", "unknown-untouched", "no-panic"),
-			Weights:  weights(defaultWeights(), map[string]int{"pod-dup": 3, "pod-failed": 2, "pod-unknown": 2, "node-relabel": 2, "node-taint": 2, "node-remove": 2, "annotation": 1})},
+			Weights:  weights(defaultWeights(), map[string]int{"pod-dup": 3, "pod-failed": 2, "pod-unknown": 2, "node-relabel": 2, "node-taint": 2, "node-remove": 2, "annotation": 1, "node-annotate": 2})},
 		MinSteps: 15, MaxSteps: 70,
 		NonTrivial: func(w *World) bool {
 			f := w.Facts
@@ -136,7 +136,7 @@ func TestC08SM(t *testing.T) {
 		Name: "TestC08SM", Prop: "C08",
 		Rule: "history in which the four annotations (rolling-update-paused, rollout-frozen, canary-paused, canary-unpaused) are set, flipped and removed (values true/false/absent/garbage) over rollouts in progress (outdated pods - by a new template or by a node's resources override annotation -, missing, unavailable pods, joining nodes, with or without canary); monitors paused-frozen, promotion-rule and the status function (state/reason); then the annotations are removed and the history must converge (resume); non-trivial = an annotation was true during a sync that read work to do (outdated or missing pods); distinct by action trace",
 		Cfg: WorldCfg{MinNodes: 2, MaxNodes: 6, Letters: "ABC", Strategy: gen.StrategyOpts{Canary: 1}, Forks: 1, Affinity: 2, PlainNodes: true, Warmup: 5, StartEdit: 1,
-			Monitors: mon.Of("paused-frozen", "promotion-rule", "status-function", "canary-verdict", "no-panic"),
+			Monitors: mon.Of("paused-frozen", "promotion-rule", "status-function", "canary-verdict", "condition-clock", "no-panic"),
 			Weights:  weights(defaultWeights(), map[string]int{"annotation": 8, "edit-template": 4, "node-add": 3, "round": 6, "pod-unknown": 0, "node-taint": 0, "node-relabel": 0, "node-annotate": 3})},
 		MinSteps: 15, MaxSteps: 60,
 		After: func(w *World) { w.stabilise("resume") },
@@ -154,8 +154,8 @@ func TestC09SM(t *testing.T) {
 		Name: "TestC09SM", Prop: "C09",
 		Rule: "history with reconcile requests arriving at generated instants (sub-second to minutes apart) over 2-8 nodes with node additions and template edits; monitor rate (creates per sync <= slow-start bound; write-issuing syncs of one replica set >= reconcileFrequency-1s apart when the first status write succeeded) and budget; non-trivial = a sync read more missing pods than the bound allows (cap binding) or a sync request arrived less than reconcileFrequency after the previous one; distinct by action trace",
 		Cfg: WorldCfg{MinNodes: 2, MaxNodes: 8, Letters: "AB", Strategy: gen.StrategyOpts{Canary: 0}, Forks: 1, Affinity: 2, PlainNodes: true, Warmup: 2,
-			Monitors: mon.Of("rate", "budget", "no-panic"),
-			Weights:  map[string]int{"rec-eds": 6, "rec-ers": 20, "advance": 12, "kubelet": 5, "pod-start": 2, "edit-template": 2, "node-add": 3, "round": 2, "pod-finalize": 2, "pod-unready": 1}},
+			Monitors: mon.Of("rate", "budget", "condition-clock", "no-panic"),
+			Weights:  map[string]int{"rec-eds": 6, "rec-ers": 20, "advance": 12, "kubelet": 5, "pod-start": 2, "edit-template": 2, "node-add": 3, "round": 2, "pod-finalize": 2, "pod-unready": 1, "annotation": 2}},
 		MinSteps: 15, MaxSteps: 70,
 		NonTrivial: func(w *World) bool { return w.Facts["creation-cap-binding"] > 0 || w.CloseSyncs > 0 },
 	})
